@@ -288,3 +288,77 @@ def tree_via(g, code, provenance, how, key, observe):
     if earlier != code and tree_shape(md) == tree_shape(fresh):
         return md, 'diffed'
     return fresh, 'fresh(diff-fallback)'
+
+
+# ---- process history: earlier operations that were abandoned or aborted ---------------------------------------------------
+# "The same on every call, whatever was parsed before" includes calls that did not finish: a token stream whose consumer stopped
+# reading, a strict parse that raised, and a call aborted by an exception at an arbitrary point (RecursionError on deep input is
+# documented; KeyboardInterrupt / MemoryError can strike anywhere).  ``disturb`` performs one such earlier operation; which one is a
+# pure function of ``h`` (an int derived from the case), so a replay repeats it.
+class Abort(BaseException):
+    pass
+
+
+_PARSO_ROOT = os.path.join(os.path.abspath(REPO), 'parso') + os.sep
+DISTURB_TEXTS = ['def f(a):\n    if a:\n        b = = 1\n', 'x\n    y )\n  z\n', 'class A:\n  def f(self):\n      (\n  x = f"{\n',
+                 'if x:\n        a\n    b\n c\n', 'def f():\n\tx = [\n\t1,\n', 'for a in b:\n    try:\n        c\n  d\n    e\n',
+                 'if x:\n    def g(a, b=f"{x!r:>{w}}"):\n        return lambda: (yield)\n    else\n']
+
+
+def aborted(fn, n):
+    """Runs fn(); the n-th line event inside the library raises Abort there.  Returns True when the call was aborted."""
+    import sys as _sys
+    count = [0]
+
+    def local(frame, event, arg):
+        if event == 'line':
+            count[0] += 1
+            if count[0] >= n:
+                raise Abort()
+        return local
+
+    def tracer(frame, event, arg):
+        if frame.f_code.co_filename.startswith(_PARSO_ROOT):
+            return local
+        return None
+    old = _sys.gettrace()
+    _sys.settrace(tracer)
+    try:
+        fn()
+        return False
+    except Abort:
+        return True
+    except Exception:
+        return False        # e.g. the ParserSyntaxError of a strict parse that got as far as its error
+    finally:
+        _sys.settrace(old)
+
+
+def disturb(g, h):
+    import parso as _parso
+    from parso.python.tokenize import tokenize as _tokenize
+    text = DISTURB_TEXTS[(h >> 3) % len(DISTURB_TEXTS)]
+    mode = h % 6
+    if mode == 0:
+        try:
+            g.parse(text, error_recovery=False)
+        except _parso.ParserSyntaxError:
+            pass
+    elif mode == 1:
+        it = _tokenize(text, version_info=g.version_info)
+        for _ in range(3 + (h >> 8) % 9):
+            next(it, None)
+        del it
+    else:
+        n = 5 + (h >> 8) % (60 if mode == 2 else 900)
+        if mode in (2, 3):
+            aborted(lambda: g.parse(text), n)
+        elif mode == 4:
+            m = g.parse(text)
+            aborted(lambda: list(g.iter_errors(m)), n)
+        else:
+            aborted(lambda: g.parse(text, error_recovery=False), n)
+
+
+def case_int(*parts):
+    return int.from_bytes(digest(*parts), 'big')
